@@ -79,8 +79,10 @@ DAfterOK(e) ==
             SetCellsField(D, e.s, e.c,
                 [EMember(D, e.s, "cells", e.c) EXCEPT !.f = e.f])
       [] e.op = "set_cached" ->
-            SetCellsField(D, e.s, e.c,
-                [EMember(D, e.s, "cells", e.c) EXCEPT !.cached = e.b])
+            \* assigning the current flag is a no-op (it does not turn a derived cells into a defined one)
+            IF EMember(D, e.s, "cells", e.c).cached = e.b THEN D
+            ELSE SetCellsField(D, e.s, e.c,
+                    [EMember(D, e.s, "cells", e.c) EXCEPT !.cached = e.b])
       [] e.op = "set_allow_none" ->
             IF "c" \in DOMAIN e
             THEN [D EXCEPT !.cells[e.s] = Upd(@, e.c,
@@ -88,13 +90,21 @@ DAfterOK(e) ==
             ELSE IF Len(e.s) = 0 THEN [D EXCEPT !.an = (e.v = 2)]
             ELSE [D EXCEPT !.span[e.s] = e.v]
       [] e.op = "new_cells" ->
-            AdoptInputs([D EXCEPT !.cells[e.s] = Upd(@, e.c,
+            \* ("created": the name modelx actually gave the cells when the
+            \*  requested one was not usable as a name)
+            AdoptInputs([D EXCEPT !.cells[e.s] = Upd(@, Opt(e, "created", e.c),
                             [f |-> e.rec.f, cached |-> e.rec.cached, an |-> e.rec.an])], e)
       [] e.op = "del_cells" ->
             AdoptInputs([D EXCEPT !.cells[e.s] = Drop(@, {e.c})], e)
       [] e.op = "rename_cells" ->
-            AdoptInputs([D EXCEPT !.cells[e.s] =
-                            Upd(Drop(@, {e.c}), e.c2, D.cells[e.s][e.c])], e)
+            \* the cells object (and the copies derived from it) live on under the new name
+            LET Rn(v) == IF v[1] = "ce" /\ v[3] = <<>> /\ v[4] = e.c /\ v[2] \in D.sp
+                            /\ e.c \in ENames(D, v[2], "cells")
+                            /\ Definer(D, v[2], "cells", e.c) = e.s
+                         THEN CeObj(v[2], <<>>, e.c2) ELSE v IN
+            AdoptInputs([D EXCEPT !.cells[e.s] = Upd(Drop(@, {e.c}), e.c2, D.cells[e.s][e.c]),
+                  !.refs  = [s \in DOMAIN @ |-> [n \in DOMAIN @[s] |-> [@[s][n] EXCEPT !.v = Rn(@)]]],
+                  !.grefs = [n \in DOMAIN @ |-> [@[n] EXCEPT !.v = Rn(@)]]], e)
       [] e.op = "new_space" ->
             AdoptInputs([D EXCEPT !.sp = @ \cup {e.p},
                                   !.bases = Upd(@, e.p, Opt(e, "bases", <<>>)),
@@ -112,11 +122,14 @@ DAfterOK(e) ==
             LET new == Append(Front(e.p), e.nm)
                 R(p) == ReplacePrefix(p, e.p, new)
                 nsp == {R(p) : p \in D.sp}
+                Rv(v) == IF v[1] \in {"sp", "ce"} THEN <<v[1], R(v[2]), v[3], v[4]>> ELSE v
                 Old(q) == CHOOSE p \in D.sp : R(p) = q IN
             AdoptInputs([D EXCEPT !.sp = nsp,
                   !.bases = [q \in nsp |-> [i \in 1..Len(D.bases[Old(q)]) |-> R(D.bases[Old(q)][i])]],
                   !.cells = [q \in nsp |-> D.cells[Old(q)]],
-                  !.refs  = [q \in nsp |-> D.refs[Old(q)]],
+                  !.refs  = [q \in nsp |-> [n \in DOMAIN D.refs[Old(q)] |->
+                                 [D.refs[Old(q)][n] EXCEPT !.v = Rv(@)]]],
+                  !.grefs = [n \in DOMAIN @ |-> [@[n] EXCEPT !.v = Rv(@)]],
                   !.span  = [q \in nsp |-> D.span[Old(q)]],
                   !.pf    = [q \in {R(p) : p \in DOMAIN D.pf} |-> D.pf[Old(q)]]], e)
       [] e.op = "add_bases" ->
@@ -129,8 +142,11 @@ DAfterOK(e) ==
                         ELSE [D EXCEPT !.pf = Drop(@, {e.s})], e)
       [] OTHER -> D
 
+Structural(e) == e.op \in {"new_cells", "del_cells", "rename_cells", "new_space", "del_space",
+                            "rename_space", "add_bases", "remove_bases", "set_formula"}
 Accepted(e) == IF e.op = "call" THEN TRUE ELSE e.res = "ok"
-DAfter(e)   == IF e.op = "call" \/ ~Accepted(e) THEN D ELSE DAfterOK(e)
+DAfter(e)   == IF e.op = "call" \/ ~Accepted(e) THEN D
+               ELSE IF Structural(e) THEN KillDangling(DAfterOK(e)) ELSE DAfterOK(e)
 
 \* events after which the surviving inputs are fixed by the properties
 InputsDetermined(e) ==
@@ -176,6 +192,10 @@ AllViol(e, D2, ta) ==
                           {<<r[1], Range(r[2]), Range(r[3])>> : r \in Range(e.post.deps)},
                           ta)
           ELSE {})
+    \cup (IF "defs" \in DOMAIN e.post /\ Opt(Tr.hdr, "checkdefs", FALSE)
+          THEN DefsLabels(Tag, D2, e.post.defs) ELSE {})
+    \cup (IF "handles" \in DOMAIN e.post
+          THEN HandleLabels(Tag, D2, Range(e.post.handles)) ELSE {})
     \cup EventViol(e, D2, ta)
 
 -----------------------------------------------------------------------------
